@@ -76,6 +76,8 @@ def resolve_event(state: State, ev) -> Optional[dict]:
     kind = ev[0]
     if kind == "start_main":
         return InternalEvent(name="StartFlow", arguments={"flow_id": "main"}, matching_scores=[])
+    if kind == "internal":
+        return InternalEvent(name=ev[1], arguments=dict(ev[2]), matching_scores=[])
     if kind == "actname":
         for a in pending_actions(state):
             if a.name == ev[1]:
